@@ -19,7 +19,7 @@ RULE = (
     "Helpers: get_segment_from_point_list on generated collinear lists equals the extreme-point segment; the two "
     "*_intersection_point_set helpers return only points on the segment and on the body's boundary. "
     "non-trivial = f meets K, or f is coplanar with the polygon/a face, or passes through a vertex or along an "
-    "edge (exact classification); distinct = distinct (f, K)."
+    "edge (exact classification); each case also draws int/float coordinates, a constructor form for f and a vertex-list rotation / face order and negation pattern for K; distinct = distinct (f, K)."
 )
 ASSUMPTIONS = [
     "float coordinates; comparator 1e-7",
@@ -64,7 +64,8 @@ def check(case, ctx):
     G = lib()
     if case[0] == "HELPER":
         return check_helper(case, ctx, G)
-    f, K, tag = case
+    f, K, tag = case[0], case[1], case[2]
+    var = case[3] if len(case) > 3 else B.DEFAULT_VAR
     r = X.inter(f, K)
     tags = classify(f, K, r)
     cls = "%s-%s:%s%s" % (f[0], K[0], B.kind_name(r), ("/" + "+".join(tags)) if tags else "")
@@ -73,7 +74,7 @@ def check(case, ctx):
         ctx.nontrivial((f, K))
     ctx.sample(cls, case, B.kind_name(r))
     e = B.fdesc(r)
-    of, oK = B.build(f), B.build(K)
+    of, oK = B.build_var(f, K, var)
     calls = [
         ("intersection(f,K)", G.intersection, (of, oK)),
         ("intersection(K,f)", G.intersection, (oK, of)),
@@ -148,7 +149,7 @@ def check_helper(case, ctx, G):
 def admit(case, fail):
     if case[0] == "HELPER":
         return None
-    f, K, _tag = case
+    f, K = case[0], case[1]
     return A.body_case_margin(f, K, X.inter(f, K)).reason()
 
 
@@ -190,18 +191,18 @@ def strata(tier):
     for kK in ("G", "K"):
         n = 40 if q else 1500
         for ft in FEATS:
-            out.append(Stratum("P-%s/%s" % (kK, ft), "hyp", case_for(kK, "P", ft), n))
+            out.append(Stratum("P-%s/%s" % (kK, ft), "hyp", gen.with_variant(case_for(kK, "P", ft)), n))
         n = 14 if q else 500
         for kf in ("L", "H", "S"):
             for f1 in FEATS:
                 for f2 in FEATS:
-                    out.append(Stratum("%s-%s/%s-%s" % (kf, kK, f1, f2), "hyp", case_for(kK, kf, f1, f2), n))
-            out.append(Stratum("%s-%s/free" % (kf, kK), "hyp", case_free(kK, kf), n * 2))
+                    out.append(Stratum("%s-%s/%s-%s" % (kf, kK, f1, f2), "hyp", gen.with_variant(case_for(kK, kf, f1, f2)), n))
+            out.append(Stratum("%s-%s/free" % (kf, kK), "hyp", gen.with_variant(case_free(kK, kf)), n * 2))
         n = 40 if q else 1500
         for tr in PLANE_TRIPLES:
-            out.append(Stratum("PL-%s/%s" % (kK, "-".join(tr)), "hyp", case_for(kK, "PL", *tr), n))
+            out.append(Stratum("PL-%s/%s" % (kK, "-".join(tr)), "hyp", gen.with_variant(case_for(kK, "PL", *tr)), n))
         for rec in ("face", "parallel-in", "parallel-out", "tangent-V", "tangent-E"):
-            out.append(Stratum("PL-%s/%s" % (kK, rec), "hyp", case_special_plane(kK, rec), n))
-        out.append(Stratum("PL-%s/free" % kK, "hyp", case_free(kK, "PL"), n))
+            out.append(Stratum("PL-%s/%s" % (kK, rec), "hyp", gen.with_variant(case_special_plane(kK, rec)), n))
+        out.append(Stratum("PL-%s/free" % kK, "hyp", gen.with_variant(case_free(kK, "PL")), n))
     out.append(Stratum("helper/get_segment_from_point_list", "hyp", helper_case(), 300 if q else 10000))
     return out
